@@ -206,6 +206,12 @@ impl Sub for ExpiryDefault {
         if obj.contains_key("exp") {
           vio!("C13:exp-present-after-ack:{}", nth; "no-expiration was acknowledged but the token carries exp: {} — history {:?}", v, hist);
         }
+      } else if sup("exp").map(|v| !v.is_string()).unwrap_or(false) {
+        // the caller supplied exp through a claim type of their own with a value that is no string: it must be THERE
+        // (checked with the other supplied claims below); what it is worth to a parser is C11's subject
+        if !obj.contains_key("exp") {
+          vio!("C13:exp-missing:{}-build", nth; "the caller's own exp claim ({}) is not in the payload and nothing was acknowledged: payload {} — history {:?}", sup("exp").unwrap(), v, hist);
+        }
       } else if !obj.get("exp").map(|e| e.is_string()).unwrap_or(false) {
         vio!("C13:exp-missing:{}-build", nth; "token without acknowledgement carries no exp string: payload {} — history {:?} (build at op {})", v, hist, b.index);
       }
@@ -391,6 +397,8 @@ pub fn random_op() -> BoxedStrategy<BOp> {
     3 => Just(BOp::Ack),
     1 => Just(BOp::OtherBuildersFail),
     1 => Just(BOp::BuildWithUnusableKey),
+    // time claims supplied through a claim type of the caller's own (the PasetoClaim trait is public), with any JSON value
+    2 => (0u8..3, prop_oneof![3 => Just(Value::Null), 1 => Just(serde_json::json!("2040-01-01T00:00:00Z")), 1 => Just(serde_json::json!(1893456000)), 1 => Just(serde_json::json!(""))]).prop_map(|(k, v)| BOp::Set(ClaimSpec::Any(["exp", "iat", "nbf"][k as usize].to_string(), v))),
     2 => gen::jsonish(8).prop_map(BOp::Footer),
     2 => gen::jsonish(8).prop_map(BOp::Assertion),
     6 => Just(BOp::Build),
